@@ -11,9 +11,11 @@ import time
 
 VERIF = os.path.dirname(os.path.dirname(os.path.abspath(__file__)))
 REPO = os.environ.get("HALO_REPO", "/repo")
-CACHE = os.path.join(VERIF, ".cache")
+# HALO_CACHE: a private fact / target cache for a measurement worker (tools/mutate.py runs several analyses in parallel);
+# the driver binary is always the one of the main cache
+CACHE = os.environ.get("HALO_CACHE") or os.path.join(VERIF, ".cache")
 DRIVER_DIR = os.path.join(VERIF, "driver")
-DRIVER_TARGET = os.path.join(CACHE, "driver-target")
+DRIVER_TARGET = os.path.join(VERIF, ".cache", "driver-target")
 DRIVER_BIN = os.path.join(DRIVER_TARGET, "debug", "halo-facts-driver")
 MEMBERS = ["bignumber", "haloswap", "halo_factory", "halo_pair", "halo_router"]
 MEMBER_PKGS = ["bignumber", "haloswap", "halo-factory", "halo-pair", "halo-router"]
